@@ -50,19 +50,30 @@ def collect(tier, seed):
                 viol.append(Violation(key=f"{key}:raises:{type(e).__name__}", detail=f"applicable rule raised {type(e).__name__}: {e} on {op!r}",
                                       replay={"op": repr(op), "rule": rule.name}))
                 continue
-            wpos = wire_positions(wires)
-            try:
-                a = encode_op(op, dict(wpos), M)
-                if a is None:
-                    raise OffLattice("no image")
-            except (OffLattice, KeyError, AttributeError) as e:
+            lvl = None
+            for lv in (4, 5):                 # coarsest ring level that holds the instance and everything emitted exactly
+                wpos = wire_positions(wires)
+                try:
+                    a = encode_op(op, dict(wpos), lv)
+                    if a is None:
+                        raise OffLattice("no image")
+                except (OffLattice, KeyError, AttributeError) as e:
+                    a = None
+                    continue
+                try:
+                    recs, flt, info = decomp.flatten(ops, wpos, lv)
+                except decomp.Skip as e:
+                    k = str(e).split(" ")[0:3]
+                    stats["skipped"][" ".join(k)] = stats["skipped"].get(" ".join(k), 0) + 1
+                    a = "skip"
+                    break
+                lvl = lv
+                if recs is not None:
+                    break
+            if a is None:
                 stats["skipped"]["instance-not-encodable"] = stats["skipped"].get("instance-not-encodable", 0) + 1
                 continue
-            try:
-                recs, flt, info = decomp.flatten(ops, wpos, M)
-            except decomp.Skip as e:
-                k = str(e).split(" ")[0:3]
-                stats["skipped"][" ".join(k)] = stats["skipped"].get(" ".join(k), 0) + 1
+            if a == "skip":
                 continue
             extra = [w for w in wpos if w not in wires]          # dynamically allocated work wires
             dyn = info.get("dyn", {})
@@ -77,7 +88,7 @@ def collect(tier, seed):
             relname = "exact0" if (nwork and zero_like) else "exact"
             events.append({"key": key, "op": repr(op), "rule": rule.name, "n": n, "a": [a], "b": recs, "flt": flt,
                            "rel": relname, "nw": nwork if relname == "exact0" else 0, "expanded": info["expanded"],
-                           "emitted": [repr(o) for o in ops][:40], "opname": op.name})
+                           "emitted": [repr(o) for o in ops][:40], "opname": op.name, "M": lvl})
     return events, viol, stats
 
 
@@ -92,7 +103,7 @@ def run(tier, seed):
     events, viol, stats = collect(tier, seed)
     cases, idx = [], []
     for i, ev in enumerate(events):
-        if ev["n"] > (5 if tier == "quick" else 6):
+        if ev["n"] > (4 if tier == "quick" else 5) + (1 if ev["M"] == 4 else 0):
             stats["skipped"]["too wide"] = stats["skipped"].get("too wide", 0) + 1
             continue
         if ev["b"] is not None:
@@ -101,16 +112,32 @@ def run(tier, seed):
             cases.append({"n": ev["n"], "a": ev["a"], "cs": _cols(ev), "bs": [{"b": [], "rel": "emit"}]})
         idx.append(i)
     # negative controls: drop the last emitted gate of some exact cases
-    neg = []
+    neg, neg_src = [], []
     for k in range(0, len(cases), max(1, len(cases) // 30)):
         c = cases[k]
         if c["bs"][0]["rel"] != "emit" and len(c["bs"][0]["b"]) >= 1 and c["bs"][0]["b"][-1]["g"] not in ("Identity",):
             bad = {"n": c["n"], "a": c["a"], "cs": c["cs"], "bs": [dict(c["bs"][0], b=c["bs"][0]["b"] + [{"g": "T", "w": [1], "p": [], "x": [], "m": [], "mods": []}])]}
             neg.append(len(cases))
+            neg_src.append(k)
             cases.append(bad)
             idx.append(None)
     # wide cases are slow: order by width so TLC's workers balance
-    verdicts, emitted, tstats = rel.validate("C10", cases, M)
+    verdicts, emitted = {}, {}
+    tstats = {"distinct": 0, "generated": 0}
+    lv_of = [events[i]["M"] if i is not None else None for i in idx]
+    for k, ti in enumerate(neg):
+        lv_of[ti] = lv_of[neg_src[k]]
+    for lv in (4, 5):
+        sel = [t for t in range(len(cases)) if lv_of[t] == lv]
+        if not sel:
+            continue
+        v, e, st = rel.validate("C10", [cases[t] for t in sel], lv, name=f"rel{lv}")
+        for (j, s_), cl in v.items():
+            verdicts[(sel[j], s_)] = cl
+        for j, u in e.items():
+            emitted[sel[j]] = u
+        tstats["distinct"] += st["distinct"]
+        tstats["generated"] += st["generated"]
     n_exact = n_bridge = 0
     rules_seen, samples = set(), []
     for (ti, _), clause in verdicts.items():
@@ -120,9 +147,9 @@ def run(tier, seed):
         rules_seen.add(ev["key"])
         if cases[ti]["bs"][0]["rel"] == "emit":
             n_bridge += 1
-            Uexp = lib.ring_matrix_to_numpy(emitted[ti], M)
+            Uexp = lib.ring_matrix_to_numpy(emitted[ti], ev["M"])
             try:
-                Uout = bridge.circuit_unitary(ev["flt"], ev["n"], M)
+                Uout = bridge.circuit_unitary(ev["flt"], ev["n"], ev["M"])
             except KeyError as e:
                 stats["skipped"][f"bridge {e}"] = stats["skipped"].get(f"bridge {e}", 0) + 1
                 continue
@@ -147,7 +174,7 @@ def run(tier, seed):
            "evaluations": n_exact + n_bridge, "distinct_nontrivial": len(rules_seen),
            "rule": "instances of every table operator and its Adjoint/Pow/Controlled variants x every rule of the live registry reporting "
                    "itself applicable; non-trivial = distinct (operator name, rule name) pairs validated",
-           "samples": samples, "exact_by_tlc": n_exact, "bridged_float": n_bridge, "ring_level_M": M,
+           "samples": samples, "exact_by_tlc": n_exact, "bridged_float": n_bridge, "ring_levels": {"M=4": lv_of.count(4), "M=5": lv_of.count(5)},
            "negative_controls_rejected": nneg, **{k: v for k, v in stats.items()}}
     return CheckResult(coverage=cov, violations=viol, assumptions=[
         "operator semantics = reference table Gates.tla + adjoint/power/controlled matrix arithmetic (independent of PennyLane)",
